@@ -302,6 +302,25 @@ func (e *Endpoint) Emit(l types.Log) int {
 	return n
 }
 
+// EmitRaw pushes one log to every live subscription WITHOUT applying the subscription's address / topic filter:
+// what a non-conforming endpoint could send (wrong or missing first topic).  Returns the number notified.
+func (e *Endpoint) EmitRaw(l types.Log) int {
+	e.mu.Lock()
+	subs := append([]*logSub(nil), e.subs...)
+	e.mu.Unlock()
+	n := 0
+	for _, s := range subs {
+		lc := l
+		if lc.Topics == nil {
+			lc.Topics = []common.Hash{}
+		}
+		if err := s.notifier.Notify(s.sub.ID, &lc); err == nil {
+			n++
+		}
+	}
+	return n
+}
+
 func (s *logSub) matches(l types.Log) bool {
 	if len(s.addrs) > 0 {
 		ok := false
